@@ -20,7 +20,10 @@ import (
 var (
 	intPool   = []int64{0, 1, -1, 2, 3, 7, -3, 10, 60, math.MinInt64, math.MaxInt64}
 	floatPool = []float64{0, math.Copysign(0, -1), 1, -1, 2, 3, 7, -1.5, 2.5, 10, 0.1, math.NaN(), math.Inf(1), math.Inf(-1), 1e19, -1e19, 9007199254740993}
-	strPool   = []string{"", "a", "abc", "b", "é", "a b", "Zz", "abcabc", "true", "12", "1s"}
+	strPool   = []string{"", "a", "abc", "b", "é", "日本", "😀", "a😀b", "éa", "a b", "Zz", "abcabc", "true", "12", "1s",
+		strings.Repeat("д", 33), strings.Repeat("aд", 50), strings.Repeat("x", 40), "ab\xffc", "  pad  "}
+	numStrPool = []string{"12", "-5", "+7", "0", "9223372036854775807", "9223372036854775808", "-9223372036854775808", "-9223372036854775809",
+		"1_0", "", "abc", "1.5", " 1", "true", "T", "false", "F", "1", "TRUE", "tRuE", "0x10"}
 	asciiPool = []string{"", "a", "abc", "hello", "abcabc"}
 	durPool   = []time.Duration{0, time.Second, -time.Second, 1, time.Minute, math.MaxInt64, 3 * time.Millisecond}
 	rePool    = []string{"a", "^a.c$", "b+", "", "[0-9]+", "é"}
@@ -28,10 +31,10 @@ var (
 
 // reference names by the type they have in the base environment
 var refsOf = map[string][]string{
-	"int": {"a", "n"}, "float": {"x", "y"}, "string": {"s", "u"}, "ascii": {"w"}, "bool": {"p", "q"},
+	"int": {"a", "n"}, "float": {"x", "y"}, "string": {"s", "u"}, "ascii": {"w"}, "numstr": {"v"}, "bool": {"p", "q"},
 	"duration": {"d", "e"}, "time": {"time"},
 }
-var baseTy = map[string]string{"a": "int", "n": "int", "x": "float", "y": "float", "s": "string", "u": "string", "w": "ascii",
+var baseTy = map[string]string{"a": "int", "n": "int", "x": "float", "y": "float", "s": "string", "u": "string", "w": "ascii", "v": "numstr",
 	"p": "bool", "q": "bool", "d": "duration", "e": "duration", "time": "time"}
 
 type gen struct {
@@ -49,7 +52,9 @@ func (g *gen) valOf(ty string) interface{} {
 	case "string":
 		return kit.Pick(r, strPool)
 	case "ascii":
-		return kit.Pick(r, asciiPool)
+		return kit.Pick(r, strPool)
+	case "numstr":
+		return kit.Pick(r, numStrPool)
 	case "bool":
 		return r.Bool()
 	case "duration":
@@ -123,11 +128,14 @@ func (g *gen) expr(ty string, depth int) *ex {
 			g.used[n] = true
 			return call("isPresent", ref(n))
 		case 9:
-			return call(kit.Pick(r, []string{"strContains", "strHasPrefix", "strHasSuffix"}), g.leaf("string"), g.leaf("string"))
+			if r.Chance(1, 5) {
+				return call("strContainsAny", g.leaf("string"), g.leaf("string")) // library oracle: leaf arguments only
+			}
+			return call(kit.Pick(r, []string{"strContains", "strHasPrefix", "strHasSuffix"}), g.strArg(d), g.subArg())
 		case 10:
 			return call("if", g.expr("bool", d), g.expr("bool", d), g.expr("bool", d))
 		case 11:
-			return call("bool", g.leaf(kit.Pick(r, []string{"int", "float", "string", "bool"})))
+			return call("bool", g.leaf(kit.Pick(r, []string{"int", "float", "numstr", "numstr", "bool"})))
 		default:
 			return bin("gt", call("count"), lit(int64(r.Intn(4))))
 		}
@@ -145,11 +153,17 @@ func (g *gen) expr(ty string, depth int) *ex {
 			}
 			return call("count")
 		case 7:
-			return call(kit.Pick(r, []string{"strLength", "int"}), g.leaf(kit.Pick(r, []string{"string", "string", "float", "bool"})))
+			if r.Bool() {
+				return call("strLength", g.strArg(d))
+			}
+			return call("int", g.leaf(kit.Pick(r, []string{"numstr", "numstr", "float", "bool", "int", "duration"})))
 		case 8:
 			return call("if", g.expr("bool", d), g.expr("int", d), g.expr("int", d))
 		default:
-			return call(kit.Pick(r, []string{"strIndex", "strCount"}), g.leaf("string"), g.leaf("string"))
+			if r.Chance(1, 6) {
+				return call(kit.Pick(r, []string{"strIndexAny", "strLastIndexAny"}), g.leaf("string"), g.leaf("string"))
+			}
+			return call(kit.Pick(r, []string{"strIndex", "strLastIndex", "strCount"}), g.strArg(d), g.subArg())
 		}
 	case "float":
 		switch r.Intn(10) {
@@ -162,9 +176,15 @@ func (g *gen) expr(ty string, depth int) *ex {
 		case 6:
 			return call("spread", g.expr("float", d))
 		case 7:
-			return call(kit.Pick(r, []string{"abs", "sqrt", "floor", "sin", "float"}), g.leaf(kit.Pick(r, []string{"float", "float", "float", "int"})))
+			if r.Chance(1, 3) {
+				return call("abs", g.expr("float", d))
+			}
+			return call(kit.Pick(r, []string{"sqrt", "floor", "sin", "float", "float"}), g.leaf(kit.Pick(r, []string{"float", "float", "int", "numstr", "bool"})))
 		case 8:
-			return call(kit.Pick(r, []string{"pow", "max", "min", "mod"}), g.leaf("float"), g.leaf("float"))
+			if r.Bool() {
+				return call(kit.Pick(r, []string{"max", "min"}), g.expr("float", d), g.expr("float", d))
+			}
+			return call(kit.Pick(r, []string{"pow", "mod"}), g.leaf("float"), g.leaf("float"))
 		default:
 			return call("if", g.expr("bool", d), g.expr("float", d), g.expr("float", d))
 		}
@@ -173,13 +193,16 @@ func (g *gen) expr(ty string, depth int) *ex {
 		case 0, 1:
 			return bin("plus", g.expr("string", d), g.expr("string", d))
 		case 2:
-			return call("strSubstring", g.leaf("ascii"), lit(int64(r.Intn(5)-1)), lit(int64(r.Intn(7)-1)))
+			return g.substr()
 		case 3:
-			return call(kit.Pick(r, []string{"strToUpper", "strTrimSpace", "string"}), g.leaf(kit.Pick(r, []string{"string", "string", "int", "duration"})))
+			if r.Bool() {
+				return call("string", g.leaf(kit.Pick(r, []string{"int", "bool", "duration", "string", "float"}))) // float argument: library oracle, so a leaf
+			}
+			return call(kit.Pick(r, []string{"strToUpper", "strTrimSpace", "string", "strTrim"}), g.leaf(kit.Pick(r, []string{"string", "string", "float"})))
 		case 4:
 			return call("if", g.expr("bool", d), g.expr("string", d), g.expr("string", d))
 		default:
-			return call("strTrimPrefix", g.leaf("string"), g.leaf("string"))
+			return call(kit.Pick(r, []string{"strTrimPrefix", "strTrimSuffix"}), g.strArg(d), g.subArg())
 		}
 	case "duration":
 		switch r.Intn(10) {
@@ -198,7 +221,7 @@ func (g *gen) expr(ty string, depth int) *ex {
 		case 7:
 			return un("neg", g.expr("duration", d))
 		case 8:
-			return call("duration", g.leaf(kit.Pick(r, []string{"int", "float", "duration"})), lit(time.Second))
+			return call("duration", g.leaf(kit.Pick(r, []string{"int", "float", "duration", "string"})), lit(kit.Pick(r, durPool)))
 		default:
 			return call("if", g.expr("bool", d), g.expr("duration", d), g.expr("duration", d))
 		}
@@ -358,8 +381,11 @@ func (g *gen) directed(i int) (*ex, string, string, int) {
 		den := kit.Pick(r, []*ex{g.ref("int"), lit(int64(0)), g.ref("duration")})
 		num := kit.Pick(r, []*ex{i64(), g.ref("duration"), g.ref("int")})
 		return bin("gt", bin(kit.Pick(r, []string{"div", "mod"}), num, den), lit(int64(1))), "bool", "pred", 40
-	case 5: // strSubstring bounds
-		return call("strSubstring", g.leaf("ascii"), lit(int64(r.Intn(7)-1)), lit(int64(r.Intn(8)-1))), "string", "", 10
+	case 5: // strSubstring / index functions at the byte-length and rune-count boundaries of multi-byte strings
+		if r.Chance(2, 3) {
+			return g.substr(), "string", "", 10
+		}
+		return call(kit.Pick(r, []string{"strIndex", "strLastIndex", "strCount"}), g.strArg(0), g.subArg()), "int", "", 10
 	case 6: // more than maxArgs arguments
 		return bin("gt", &ex{kind: "FM", op: kit.Pick(r, []string{"abs", "count", "if", "nosuch"})}, lit(0.0)), "bool", "", 0
 	case 7: // AND/OR short circuit over an ill-typed or faulting right operand
@@ -419,4 +445,54 @@ func (g *gen) point(names []string, inst, flip int) evalOp {
 		o.tags = append(o.tags, binding{"time", "x"})
 	}
 	return o
+}
+
+// strArg: a string argument — a literal or reference (any pool string, multi-byte and long ones included) or,
+// sometimes, a computed string.
+func (g *gen) strArg(d int) *ex {
+	if d > 0 && g.r.Chance(1, 4) {
+		return g.expr("string", d-1)
+	}
+	return g.leaf(kit.Pick(g.r, []string{"string", "ascii"}))
+}
+
+// subArg: a substring / prefix / suffix argument: pieces of pool strings (whole runes and single bytes of multi-byte runes).
+func (g *gen) subArg() *ex {
+	r := g.r
+	if r.Chance(1, 3) {
+		return g.leaf("string")
+	}
+	s := kit.Pick(r, strPool)
+	if len(s) == 0 {
+		return lit("")
+	}
+	i := r.Intn(len(s))
+	j := i + r.Intn(len(s)-i+1)
+	if j-i > 4 {
+		j = i + 4
+	}
+	return lit(s[i:j])
+}
+
+// substr: strSubstring on a string with indexes at 0, 1, n-1, n, n+1 for n = byte length and n = rune count, negatives, 33.
+func (g *gen) substr() *ex {
+	r := g.r
+	s := kit.Pick(r, strPool)
+	n, rc := int64(len(s)), int64(len([]rune(s)))
+	cands := []int64{0, 1, n - 1, n, n + 1, rc - 1, rc, rc + 1, -1, 2, 33, n / 2}
+	a, b := kit.Pick(r, cands), kit.Pick(r, cands)
+	if r.Chance(2, 3) && a > b {
+		a, b = b, a
+	}
+	var first *ex = lit(s)
+	if r.Chance(1, 3) {
+		first = g.ref("ascii")
+	}
+	mk := func(v int64) *ex {
+		if r.Chance(1, 6) {
+			return g.ref("int")
+		}
+		return lit(v)
+	}
+	return call("strSubstring", first, mk(a), mk(b))
 }
